@@ -422,6 +422,28 @@ func genPbf(repo string) *genFile {
 	g.pf("def fullyScannedBytesBody : List String := %s\n", leanStrList(flatBody("Scanner", "FullyScannedBytes")))
 	g.pf("def previousFullyScannedBytesBody : List String := %s\n", leanStrList(flatBody("Scanner", "PreviousFullyScannedBytes")))
 
+	// the XML scanner's Scan / Err / Close (same call-history contract)
+	if xp, err := loadPkg(repo + "/osmxml"); err == nil {
+		xbody := func(name string) []string {
+			fd := xp.funcDecl("Scanner", name)
+			if fd == nil {
+				g.fail("osmxml Scanner.%s not found", name)
+				return nil
+			}
+			var out []string
+			old := p
+			p = xp
+			flat(fd.Body, &out)
+			p = old
+			return out
+		}
+		g.pf("\ndef xmlScanBody : List String := %s\n", leanStrList(xbody("Scan")))
+		g.pf("def xmlErrBody : List String := %s\n", leanStrList(xbody("Err")))
+		g.pf("def xmlCloseBody : List String := %s\n", leanStrList(xbody("Close")))
+	} else {
+		g.fail("cannot load osmxml: %v", err)
+	}
+
 	// constants and capability table
 	var consts []string
 	for _, fn := range p.sortedFiles() {
